@@ -508,7 +508,8 @@ def in_process_flag_is_exact(ctx: Ctx):
             c = l.cmp()
             if l.node.op == "cell0" and l.node.args[1] == "job_in_process" and l.sign > 0:
                 n_flag += 1
-            elif c is not None and {"finish_times", "time"} <= vg.cells_of(l.node) and c[1] in (">=0", ">0"):
+            elif c is not None and c[1] in (">=0", ">0") and "time" in nf.sided_cells(c[0])[0] and "finish_times" in nf.sided_cells(c[0])[1] and l.sign > 0:
+                # time - finish_times[next_op] >= 0: the operation HAS ended (the mirrored test has the same operator after normalisation)
                 n_rel += 1
             else:
                 extra.append(vg.show(l.node, 3)[:60])
